@@ -365,14 +365,23 @@ func showTok(src []byte, t *token.Token) string {
 	return fmt.Sprintf("%d@%d:%d:%d[%d,%d)", int(t.Type), t.Pos.Offset, t.Pos.Line, t.Pos.Column, lo, hi)
 }
 
+type scanCtx struct{ name string }
+
 func scan(src []byte, ncalls, resetAt int) string {
 	l := lexer.NewLexer(src)
+	ctx := &scanCtx{"ctx"}
+	l.Context = ctx
 	out := make([]string, 0, ncalls)
 	for k := 0; k < ncalls; k++ {
 		if k == resetAt {
 			l.Reset()
 		}
-		out = append(out, showTok(src, l.Scan()))
+		t := l.Scan()
+		s := showTok(src, t)
+		if c, ok := t.Pos.Context.(*scanCtx); !ok || c != ctx {
+			s = "CTXLOST"
+		}
+		out = append(out, s)
 	}
 	return strings.Join(out, " ")
 }
